@@ -20,29 +20,64 @@ Lemma prefix_trans {A} (a b c : list A) : prefix_of a b -> prefix_of b c -> pref
 Proof. intros [t1 ->] [t2 ->]. exists (t1 ++ t2). rewrite app_assoc. reflexivity. Qed.
 
 Definition depth_of (e : env) : nat := length (scopes e).
-Definition R (e e' : env) : Prop := depth_of e' = depth_of e /\ prefix_of (outp e) (outp e').
+
+(** the names bound in each scope: the innermost scope may gain names (at its end), every outer
+    scope keeps exactly its names, in order *)
+Definition keys (t : symtab) : list varname := map fst t.
+Definition SK (ss ss' : list symtab) : Prop :=
+  match ss, ss' with
+  | [], [] => True
+  | t :: r, t' :: r' => prefix_of (keys t) (keys t') /\ map keys r = map keys r'
+  | _, _ => False
+  end.
+
+Lemma SK_refl ss : SK ss ss.
+Proof. destruct ss; cbn; auto. split; [apply prefix_refl|reflexivity]. Qed.
+Lemma SK_trans a b c : SK a b -> SK b c -> SK a c.
+Proof.
+  destruct a as [|ta ra], b as [|tb rb], c as [|tc rc]; cbn; try tauto.
+  intros [H1 H2] [H3 H4]. split; [eapply prefix_trans; eauto|congruence].
+Qed.
+Lemma SK_length a b : SK a b -> length b = length a.
+Proof.
+  destruct a as [|ta ra], b as [|tb rb]; cbn; try tauto. intros [_ H]. f_equal.
+  rewrite <- (map_length keys rb), <- (map_length keys ra). congruence.
+Qed.
+Lemma SK_same_keys a b : map keys b = map keys a -> SK a b.
+Proof.
+  destruct a as [|ta ra], b as [|tb rb]; cbn; try discriminate; auto.
+  intro H. injection H as H1 H2. split; [rewrite H1; apply prefix_refl|auto].
+Qed.
+
+Definition R (e e' : env) : Prop :=
+  depth_of e' = depth_of e /\ prefix_of (outp e) (outp e') /\ SK (scopes e) (scopes e').
 (** on an error the stack may be deeper than at the start (scopes pushed and not yet popped: the
     Rust code returns early through `?`), never shallower *)
 Definition Rerr (e e' : env) : Prop := (depth_of e <= depth_of e')%nat /\ prefix_of (outp e) (outp e').
 Definition wf (e : env) : Prop := (1 <= depth_of e)%nat.
 
-Lemma R_refl e : R e e.  Proof. split; [reflexivity|apply prefix_refl]. Qed.
+Lemma R_refl e : R e e.  Proof. split; [reflexivity|split; [apply prefix_refl|apply SK_refl]]. Qed.
 Lemma R_trans a b c : R a b -> R b c -> R a c.
-Proof. intros [H1 H2] [H3 H4]. split; [congruence|eapply prefix_trans; eauto]. Qed.
+Proof. intros (H1 & H2 & H5) (H3 & H4 & H6). split; [congruence|split; [eapply prefix_trans; eauto|eapply SK_trans; eauto]]. Qed.
 Lemma R_Rerr a b c : R a b -> Rerr b c -> Rerr a c.
-Proof. intros [H1 H2] [H3 H4]. split; [lia|eapply prefix_trans; eauto]. Qed.
+Proof. intros (H1 & H2 & _) [H3 H4]. split; [lia|eapply prefix_trans; eauto]. Qed.
 Lemma Rerr_trans a b c : Rerr a b -> Rerr b c -> Rerr a c.
 Proof. intros [H1 H2] [H3 H4]. split; [lia|eapply prefix_trans; eauto]. Qed.
 Lemma R_is_Rerr a b : R a b -> Rerr a b.
-Proof. intros [H1 H2]. split; [lia|auto]. Qed.
+Proof. intros (H1 & H2 & _). split; [lia|auto]. Qed.
 Lemma Rerr_refl a : Rerr a a.
 Proof. split; [lia|apply prefix_refl]. Qed.
 Lemma Rerr_wf a b : Rerr a b -> wf a -> wf b.
 Proof. intros [H _] W. unfold wf in *. lia. Qed.
 Lemma R_wf a b : R a b -> wf a -> wf b.
 Proof. intros [H _] W. unfold wf in *. lia. Qed.
-Lemma R_same_scopes_out a b : depth_of b = depth_of a -> outp b = outp a -> R a b.
-Proof. intros H1 H2. split; auto. rewrite H2. apply prefix_refl. Qed.
+Lemma R_same_keys_out a b : map keys (scopes b) = map keys (scopes a) -> outp b = outp a -> R a b.
+Proof.
+  intros H1 H2. pose proof (SK_same_keys _ _ H1) as K. split; [apply (SK_length _ _ K)|]. split; auto.
+  rewrite H2. apply prefix_refl.
+Qed.
+Lemma R_same_scopes_out a b : scopes b = scopes a -> outp b = outp a -> R a b.
+Proof. intros H1 H2. apply R_same_keys_out; auto. rewrite H1. reflexivity. Qed.
 
 Definition Inv {A} (Q : A -> env -> Prop) (e : env) (r : xres A) : Prop :=
   match r with
@@ -97,8 +132,22 @@ Proof.
   destruct (tab_lookup_var n t) as [?|[]| | | |]; cbn; auto.
 Qed.
 
+Lemma tab_set_keys k x t : tab_get k t <> None -> keys (tab_set k x t) = keys t.
+Proof.
+  induction t as [|[k' e'] r IH]; cbn; [intro H; contradiction|].
+  destruct (varname_eqb k k'); cbn; auto. intro H. f_equal. apply IH. exact H.
+Qed.
+
+Lemma store_var_keys n v ss : map keys (store_var n v ss) = map keys ss.
+Proof.
+  induction ss as [|t r IH]; cbn; auto.
+  unfold tab_lookup_var. destruct (tab_get (lower_name n) t) as [[x|ps b]|] eqn:E; cbn; auto.
+  - f_equal. apply tab_set_keys. rewrite E. discriminate.
+  - f_equal. exact IH.
+Qed.
+
 Lemma env_store_R n v e : R e (env_store n v e).
-Proof. apply R_same_scopes_out; unfold depth_of, env_store, mkEnvB; cbn; [apply store_var_length|reflexivity]. Qed.
+Proof. apply R_same_keys_out; unfold env_store, mkEnvB; cbn; [apply store_var_keys|reflexivity]. Qed.
 
 Lemma env_lookup_var_R n e : R e (snd (env_lookup_var n e)).
 Proof. apply R_same_scopes_out; reflexivity. Qed.
@@ -252,11 +301,23 @@ Proof.
   - apply R_is_Rerr; auto.
 Qed.
 
+Lemma tab_emplace_keys n x t t' : tab_emplace n x t = Ok t' -> prefix_of (keys t) (keys t').
+Proof.
+  unfold tab_emplace. destruct (tab_get (lower_name n) t); try discriminate. intro H. injection H as <-.
+  exists [lower_name n]. unfold keys. rewrite map_app. reflexivity.
+Qed.
+
+Lemma R_grow a b t t' r :
+  scopes a = t :: r -> scopes b = t' :: r -> prefix_of (keys t) (keys t') -> outp b = outp a -> R a b.
+Proof.
+  intros Ha Hb Hp Ho. unfold R, depth_of. rewrite Ha, Hb, Ho. cbn. split; [reflexivity|]. split; [apply prefix_refl|auto].
+Qed.
+
 Lemma env_create_var_R n e e2 : env_create_var n e = Ok e2 -> R e e2.
 Proof.
   unfold env_create_var. destruct (scopes e) as [|t r] eqn:Es; try discriminate.
-  destruct (tab_emplace n (EVar VUndef) t); try discriminate. intro H; inversion H; subst.
-  apply R_same_scopes_out; unfold depth_of, mkEnvB; cbn; [rewrite Es; reflexivity|reflexivity].
+  destruct (tab_emplace n (EVar VUndef) t) as [t'| | | | |] eqn:Et; try discriminate. intro H; inversion H; subst.
+  eapply R_grow; [exact Es|reflexivity|eapply tab_emplace_keys; eauto|reflexivity].
 Qed.
 
 Lemma tab_emplace_safe n x t : safe (tab_emplace n x t).
@@ -312,7 +373,7 @@ Proof. intro H. apply N.ltb_lt. unfold Val.len. lia. Qed.
 
 Lemma pop_scope_ok prof e :
   (2 <= depth_of e)%nat ->
-  exists e', pop_scope prof e = Ok e' /\ depth_of e' = pred (depth_of e) /\ outp e' = outp e.
+  exists e', pop_scope prof e = Ok e' /\ depth_of e' = pred (depth_of e) /\ outp e' = outp e /\ scopes e' = tl (scopes e).
 Proof.
   intro H. unfold pop_scope, debug_assert. unfold depth_of in *.
   rewrite (len_ge2 _ H). eexists. split; [destruct prof; reflexivity|].
@@ -322,6 +383,16 @@ Qed.
 Lemma push_scope_depth e : depth_of (push_scope e) = S (depth_of e) /\ outp (push_scope e) = outp e.
 Proof. split; reflexivity. Qed.
 
+(** a scope pushed, a computation that respects [R], the scope popped: [R] for the whole *)
+Lemma R_frame e1 e2 e3 e4 t0 :
+  scopes e2 = t0 :: scopes e1 -> outp e2 = outp e1 -> R e2 e3 ->
+  scopes e4 = tl (scopes e3) -> outp e4 = outp e3 -> R e1 e4.
+Proof.
+  intros H2 O2 (Hd & Hp & Hk) H4 O4. rewrite H2 in Hk. unfold R, depth_of in *. rewrite H2 in Hd.
+  destruct (scopes e3) as [|t3 r3]; [contradiction|]. cbn in Hk, Hd, H4. destruct Hk as [_ Hk].
+  rewrite H4, O4, <- O2. split; [cbn in Hd; lia|]. split; [exact Hp|]. apply SK_same_keys. auto.
+Qed.
+
 Lemma tab_for_call_safe args : forall t, safe (tab_for_call args t).
 Proof.
   induction args as [|[n v] r IH]; intro t; cbn; [exact I|].
@@ -330,14 +401,14 @@ Qed.
 
 Lemma push_function_scope_spec args e :
   match env_push_function_scope args e with
-  | Ok e2 => depth_of e2 = S (depth_of e) /\ outp e2 = outp e
+  | Ok e2 => depth_of e2 = S (depth_of e) /\ outp e2 = outp e /\ exists t0, scopes e2 = t0 :: scopes e
   | Err _ => True
   | Panic _ | UB _ => False
   | _ => True
   end.
 Proof.
   unfold env_push_function_scope. pose proof (tab_for_call_safe args []) as H.
-  destruct (tab_for_call args []); cbn in *; auto.
+  destruct (tab_for_call args []); cbn in *; auto. repeat split; eauto.
 Qed.
 
 Lemma tick_R e e' : tick e = Some e' -> R e e'.
@@ -346,11 +417,11 @@ Proof.
   apply R_same_scopes_out; reflexivity.
 Qed.
 
-Lemma enter_call_spec e e' : enter_call e = Some e' -> depth_of e' = depth_of e /\ outp e' = outp e.
-Proof. unfold enter_call. destruct (depth e =? 0)%N; try discriminate. intro H; inversion H; subst. split; reflexivity. Qed.
+Lemma enter_call_spec e e' : enter_call e = Some e' -> depth_of e' = depth_of e /\ outp e' = outp e /\ scopes e' = scopes e.
+Proof. unfold enter_call. destruct (depth e =? 0)%N; try discriminate. intro H; inversion H; subst. repeat split; reflexivity. Qed.
 
-Lemma leave_call_spec e : depth_of (leave_call e) = depth_of e /\ outp (leave_call e) = outp e.
-Proof. split; reflexivity. Qed.
+Lemma leave_call_spec e : depth_of (leave_call e) = depth_of e /\ outp (leave_call e) = outp e /\ scopes (leave_call e) = scopes e.
+Proof. repeat split; reflexivity. Qed.
 
 Lemma chan_input_spec c ln c' : chan_input c = Ok (ln, c') -> out_bytes c' = out_bytes c.
 Proof.
@@ -388,8 +459,8 @@ Lemma env_create_func_spec n ps b e :
 Proof.
   unfold wf, depth_of, env_create_func. destruct (scopes e) as [|t r] eqn:Es; cbn; [lia|]. intros _.
   pose proof (tab_emplace_safe n (EFunc ps b) t) as H.
-  destruct (tab_emplace n (EFunc ps b) t); cbn in *; auto.
-  apply R_same_scopes_out; unfold depth_of, mkEnvB; cbn; [rewrite Es; reflexivity|reflexivity].
+  destruct (tab_emplace n (EFunc ps b) t) as [t'| | | | |] eqn:Et; cbn in *; auto.
+  eapply R_grow; [exact Es|reflexivity|eapply tab_emplace_keys; eauto|reflexivity].
 Qed.
 
 (** * Control-flow bookkeeping *)
@@ -488,17 +559,17 @@ Proof.
   pose proof (push_function_scope_spec (combine (map fst params) vals) e1) as Hp.
   destruct (env_push_function_scope (combine (map fst params) vals) e1) as [e2|x| | | |]; cbn in *; try contradiction; auto.
   2:{ apply Rerr_refl. }
-  destruct Hp as [Hd Ho].
+  destruct Hp as (Hd & Ho & t0 & Hs2).
   destruct (enter_call e2) as [e2'|] eqn:Ee; [|exact I].
-  apply enter_call_spec in Ee as [Hd' Ho'].
+  apply enter_call_spec in Ee as (Hd' & Ho' & Hs2').
   assert (W2 : wf e2') by (unfold wf in *; lia).
   pose proof (P_exec_block f IH body x_init e2' W2 prex_init) as Hb.
   destruct (exec_block prof f body x_init e2') as [xs e3|x e3| | | |]; cbn in *; auto.
-  - destruct Hb as [[Hd3 Ho3] _].
-    destruct (leave_call_spec e3) as [Hl1 Hl2].
-    destruct (pop_scope_ok prof (leave_call e3)) as (e4 & Ep & Hd4 & Ho4); [unfold wf in *; lia|].
-    rewrite Ep. cbn. split; [|exact I]. split; [lia|].
-    rewrite Ho4, Hl2. rewrite <- Ho, <- Ho'. exact Ho3.
+  - destruct Hb as [HR3 _]. pose proof HR3 as (Hd3 & Ho3 & _).
+    destruct (leave_call_spec e3) as (Hl1 & Hl2 & Hl3).
+    destruct (pop_scope_ok prof (leave_call e3)) as (e4 & Ep & Hd4 & Ho4 & Hs4); [unfold wf in *; lia|].
+    rewrite Ep. cbn. split; [|exact I].
+    apply (R_frame e1 e2' e3 e4 t0); auto; try congruence.
   - destruct Hb as [Hd3 Ho3]. split; [lia|]. rewrite <- Ho, <- Ho'. exact Ho3.
 Qed.
 
@@ -576,10 +647,10 @@ Proof.
   assert (W2 : wf (push_scope e1)) by (unfold wf in *; lia).
   pose proof (P_exec_block f IH b xs (push_scope e1) W2 Hp) as Hb.
   destruct (exec_block prof f b xs (push_scope e1)) as [xs' e3|x e3| | | |]; simpl in *; auto.
-  - destruct Hb as [[Hd3 Ho3] Hq].
-    destruct (pop_scope_ok prof e3) as (e4 & Ep & Hd4 & Ho4); [unfold wf in *; lia|].
+  - destruct Hb as [HR3 Hq]. pose proof HR3 as (Hd3 & Ho3 & _).
+    destruct (pop_scope_ok prof e3) as (e4 & Ep & Hd4 & Ho4 & Hs4); [unfold wf in *; lia|].
     rewrite Ep. simpl.
-    assert (HR : R e1 e4). { split; [lia|]. rewrite Ho4, <- Ho. exact Ho3. }
+    assert (HR : R e1 e4) by (apply (R_frame e1 (push_scope e1) e3 e4 []); auto).
     eapply Inv_trans; [exact HR|]. apply Hk; auto.
   - destruct Hb as [Hd3 Ho3]. split; [lia|]. rewrite <- Ho. exact Ho3.
 Qed.
@@ -619,7 +690,7 @@ Lemma Inv_chan_output xs e2 txt :
 Proof.
   intro Hx. pose proof (chan_output_spec txt (chan e2)) as H.
   destruct (chan_output txt (chan e2)) as [[c'|x| | | |] cf]; try contradiction.
-  - split; [|exact Hx]. split; [reflexivity|exact H].
+  - split; [|exact Hx]. split; [reflexivity|]. split; [exact H|apply SK_refl].
   - split; [unfold depth_of, mkEnvB; cbn; lia|exact H].
 Qed.
 
@@ -654,8 +725,9 @@ Proof.
       * apply (Inv_scoped_block f IH b xs e1 (fun xs' e4 => XOk xs' e4)); auto.
         intros xs' e4 Hx' _. apply Inv_ok. exact Hx'.
       * simpl. destruct (push_scope_depth e1) as [Hd Ho].
-        destruct (pop_scope_ok prof (push_scope e1)) as (e4 & Ep & Hd4 & Ho4); [unfold wf in *; lia|].
-        rewrite Ep. simpl. split; [|exact Hx]. split; [lia|]. rewrite Ho4, Ho. apply prefix_refl.
+        destruct (pop_scope_ok prof (push_scope e1)) as (e4 & Ep & Hd4 & Ho4 & Hs4); [unfold wf in *; lia|].
+        rewrite Ep. simpl. split; [|exact Hx].
+        apply (R_frame e1 (push_scope e1) (push_scope e1) e4 []); auto. apply R_refl.
   - apply (P_exec_loop f IH); auto.
   - apply (P_exec_loop f IH); auto.
   - apply Inv_after_write_ident; auto.
